@@ -128,11 +128,6 @@ def gen_operand(rng, n, dup=False):
 
 
 def classify(kind, case, detail):
-    d = str(detail)
-    if kind == "string" and ("IndexError" in d):
-        return "C07-F07b"
-    if kind in ("box", "sphere") and case.get("periodic") and (case.get("scaled") or kind == "box") and case.get("far"):
-        return "C07-F05"
     return None
 
 
@@ -143,12 +138,20 @@ def item_str(it):
         return it[1]
     if it[0] == "idx":
         return it[1] + "." + ".".join(("%d-%d" % s if isinstance(s, tuple) else "%d" % s) for s in it[2])
+    if it[0] == "bare":
+        return ".".join(("%d-%d" % s if isinstance(s, tuple) else "%d" % s) for s in it[2])
     return it[2]
+
+
+def coq_sites(ss):
+    return "[%s]" % "; ".join(("SRange %s %s" % (fw.zlit(s[0]), fw.zlit(s[1])) if isinstance(s, tuple) else "SOne %s" % fw.zlit(s)) for s in ss)
 
 
 def coq_item(it, labcode):
     if it[0] == "el":
         return "IEl %d" % ELS[it[1]]
+    if it[0] == "bare":
+        return "IBare %s" % coq_sites(it[2])
     if it[0] == "idx":
         return "IIdx %d [%s]" % (ELS[it[1]], "; ".join(("SRange %s %s" % (fw.zlit(s[0]), fw.zlit(s[1])) if isinstance(s, tuple) else "SOne %s" % fw.zlit(s)) for s in it[2]))
     return "ILabel %d %d" % (ELS[it[1]], labcode.get(it[2], 999))
@@ -168,7 +171,7 @@ def run_case(kind, case):
         atoms = mk_atoms(case["syms"], case["labels"])
         try:
             s = AtomSelection.from_selection_string(atoms, case["string"])
-        except ValueError as e:
+        except (ValueError, IndexError) as e:
             return (not case["valid"]), "refused: %s" % e
         except Exception as e:
             return False, "raised %s: %s" % (type(e).__name__, e)
@@ -177,6 +180,8 @@ def run_case(kind, case):
         return sphere_oracle(case)[:2]
     if kind == "box":
         return box_oracle(case)[:2]
+    if kind == "scaled":
+        return scaled_oracle(case)[:2]
     raise ValueError(kind)
 
 
@@ -219,15 +224,60 @@ def box_oracle(c):
     for k, cell in zip(s.indices, ci):
         got.append((int(k), tuple(int(x) for x in cell)))
     want = set()
-    B = 6
-    rng_ = [range(-B, B + 1) if (pbc[i] and c["periodic"]) else range(0, 1) for i in range(3)]
+    # exact and independent of the model: the fractional coordinates of the box lie between those of its 8 corners
+    from fractions import Fraction
+    D = lc.det(L)
+    corners = [tuple((lo, hi)[b[i]][i] for i in range(3)) for b in itertools.product((0, 1), repeat=3)]
     for k, p in enumerate(pos):
+        fp = lc.fracnum(L, p)
+        rng_ = []
+        for i in range(3):
+            if pbc[i] and c["periodic"]:
+                fs = [Fraction(lc.fracnum(L, q)[i] - fp[i], D) for q in corners]
+                rng_.append(range(math.floor(min(fs)) - 1, math.ceil(max(fs)) + 2))
+            else:
+                rng_.append(range(0, 1))
         for n in itertools.product(*rng_):
             w = lc.vadd(p, lc.comb(n, L))
             if all(lo[i] < w[i] < hi[i] for i in range(3)):
                 want.add((k, n))
     if len(set(got)) != len(got) or set(got) != want:
         return False, "box %s-%s: missing %s, spurious %s" % (lo, hi, sorted(want - set(got))[:3], sorted(set(got) - want)[:3]), got
+    return True, "", got
+
+
+def scaled_oracle(c):
+    """box / sphere with scaled=True on a diagonal power-of-two cell (fractional coordinates exact in floats)"""
+    from fractions import Fraction as Fr
+    from soprano.selection import AtomSelection
+    diag, pbc, pos = c["diag"], tuple(c["pbc"]), c["pos"]
+    atoms = mk_atoms(["H"] * len(pos), cell=np.diag(np.array(diag, float)), pos=np.array(pos, float), pbc=list(pbc))
+    per = c["periodic"]
+    fr = []
+    for p in pos:
+        f = [Fr(p[i], diag[i]) for i in range(3)]
+        fr.append([f[i] % 1 if pbc[i] else f[i] for i in range(3)])     # ase wraps the periodic axes only
+    if c["shape"] == "sphere":
+        ctr = [Fr(x, 8) for x in c["centre8"]]
+        r2 = Fr(2 * c["m"] + 1, 128)
+        s = AtomSelection.from_sphere(atoms, np.array([float(x) for x in ctr]), math.sqrt(float(r2)), periodic=per, scaled=True)
+        inside = lambda w: sum((w[i] - ctr[i]) ** 2 for i in range(3)) <= r2
+        reach = [(math.floor(ctr[i] - 3), math.ceil(ctr[i] + 3)) for i in range(3)]
+    else:
+        lo, hi = [Fr(x, 8) for x in c["lo8"]], [Fr(x, 8) for x in c["hi8"]]
+        s = AtomSelection.from_box(atoms, np.array([float(x) for x in lo]), np.array([float(x) for x in hi]), periodic=per, scaled=True)
+        inside = lambda w: all(lo[i] < w[i] < hi[i] for i in range(3))
+        reach = [(math.floor(lo[i]) - 1, math.ceil(hi[i]) + 1) for i in range(3)]
+    ci = s.get_array("cell_indices") if per else [(0, 0, 0)] * len(s.indices)
+    got = [(int(k), tuple(int(x) for x in cell)) for k, cell in zip(s.indices, ci)]
+    want = set()
+    for k, f in enumerate(fr):
+        rng_ = [range(reach[i][0] - 1, reach[i][1] + 2) if (pbc[i] and per) else range(0, 1) for i in range(3)]
+        for n in itertools.product(*rng_):
+            if inside([f[i] + n[i] for i in range(3)]):
+                want.add((k, n))
+    if len(set(got)) != len(got) or set(got) != want:
+        return False, "scaled %s: missing %s, spurious %s" % (c["shape"], sorted(want - set(got))[:3], sorted(set(got) - want)[:3]), got
     return True, "", got
 
 
@@ -244,6 +294,17 @@ def run(ctx):
                     "periodic sphere = C03 all_periodic model on position-centre; box selector and scaled variants only judged by brute force"]
     ctx.build_props()
     ctx.build_models(["model/Sel.vo", "model/Lattice.vo"])
+    # corpus first: witnesses of the defects this check found (all repaired; a fixed entry suppresses nothing)
+    for k in ctx.known:
+        w = k.get("witness") or {}
+        if w.get("kind") in ("setop", "string", "sphere", "box", "scaled"):
+            try:
+                ok, d = run_case(w["kind"], w["case"])
+            except Exception as e:
+                ok, d = False, "raised %s: %s" % (type(e).__name__, e)
+            ctx.evaluations += 1
+            if not ok:
+                ctx.fail_input(w["kind"], w["case"], "%s (%s): %s" % (k["id"], k["what"], d), classify)
     exprs, exps, meta = [], [], []
     N = 250 if quick else 5000
     for t in range(N):
@@ -354,9 +415,7 @@ def run(ctx):
             el = rng.choice(sorted(set(syms))) if rng.random() < 0.9 else rng.choice(["H", "C", "O", "Si"])
             ne = syms.count(el)
             k = rng.random()
-            if k < 0.3:
-                items.append(("el", el))
-            elif k < 0.75:
+            def gen_sites():
                 sites = []
                 for _s in range(rng.randint(1, 2)):
                     hi = max(1, ne)
@@ -365,21 +424,29 @@ def run(ctx):
                         sites.append((a, rng.randint(a, hi)))
                     else:
                         sites.append(rng.randint(0 if rng.random() < 0.1 else 1, hi + (1 if rng.random() < 0.1 else 0)))
-                items.append(("idx", el, sites))
+                return sites
+            if k < 0.3:
+                items.append(("el", el))
+            elif k < 0.75:
+                items.append(("idx", el, gen_sites()))
+                while rng.random() < 0.3:      # 'Si.1-3,5': bare site numbers continue the indexed item
+                    items.append(("bare", el, gen_sites()))
             else:
                 lab = rng.choice(labels) if rng.random() < 0.85 else el + "9"
                 items.append(("label", "".join(ch for ch in lab if ch.isalpha() and ch != "a") if lab[0].isalpha() else el, lab))
+        if rng.random() < 0.04:
+            items.insert(rng.randrange(len(items) + 1), ("bare", "H", [rng.randint(1, 3)]))     # malformed: nothing to continue (maybe)
         string = ",".join(item_str(it) for it in items)
         try:
             s = AtomSelection.from_selection_string(atoms, string)
             enc = [0] + [int(i) for i in s.indices]
             exc = None
-        except ValueError as e:
-            enc, exc = [1], "ValueError: %s" % str(e)[:60]
+        except (ValueError, IndexError) as e:     # rejected: bad grammar, unknown element/label, site number out of range
+            enc, exc = [1], "%s: %s" % (type(e).__name__, str(e)[:60])
         except Exception as e:
             enc, exc = [2], "%s: %s" % (type(e).__name__, str(e)[:60])
         labs = [labcode[l] for l in labels]
-        exprs.append("enc_outl (from_items %s %s [%s] [])" % (fw.zlist([ELS[s] for s in syms]), fw.zlist(labs), "; ".join(coq_item(it, labcode) for it in items)))
+        exprs.append("enc_outl (from_items %s %s [%s] None [])" % (fw.zlist([ELS[s] for s in syms]), fw.zlist(labs), "; ".join(coq_item(it, labcode) for it in items)))
         exps.append(enc)
         case = dict(syms=syms, labels=labels, string=string, valid=True)
         meta.append(("string", case))
@@ -406,6 +473,7 @@ def run(ctx):
     # ---- spheres and boxes
     NG = 60 if quick else 1200
     sexprs, sgot, smeta = [], [], []
+    bexprs, bgot, bmeta = [], [], []
     for t in range(NG):
         kind = lc.LKINDS[t % 5]
         L = lc.gen_lattice(rng, kind)
@@ -445,19 +513,54 @@ def run(ctx):
         ctx.seen(("box", kind, tuple(pbc), periodic, ok))
         if not ok:
             ctx.fail_input("box", cb, d, classify)
+        mid2 = tuple(lo[i] + hi[i] for i in range(3))
+        L2 = [[2 * x for x in r] for r in L]
+        if periodic and any(pbc) and got is not None and lc.grid_size(lc.bounds_exact(L, pbc, lc.norm2(tuple(hi[i] - lo[i] for i in range(3))), 1)[0]) < 20000 and \
+                not any(lc.reduce_vec(L2, pbc, tuple(2 * p[i] - mid2[i] for i in range(3)))[2] for p in pos):
+            bexprs.append("flat_map (fun x => match x with (w,k,n) => k :: encv n end) (box_m %s %s %s %s %s)" % (
+                lc.coq_L(L), lc.coq_mask(pbc), "(%s,%s,%s)" % tuple(fw.zlit(x) for x in lo), "(%s,%s,%s)" % tuple(fw.zlit(x) for x in hi), lc.coq_vs(pos)))
+            bgot.append([x for (k, n) in got for x in (k,) + n])
+            bmeta.append(cb)
+    # ---- scaled=True variants (fractional coordinates live on the unit lattice): exact oracle on power-of-two diagonal cells
+    for t in range(40 if quick else 800):
+        diag = [rng.choice([4, 8, 16]) for _ in range(3)]
+        pbc = lc.MASKS[t % 8] if t % 3 else (True, True, True)
+        pos = [[rng.randint(-40, 40) for _ in range(3)] for _ in range(rng.randint(1, 4))]
+        c = dict(shape="sphere" if t % 2 else "box", diag=diag, pbc=list(pbc), pos=pos, periodic=rng.random() < 0.8)
+        if c["shape"] == "sphere":
+            c["centre8"] = [rng.randint(-20, 20) for _ in range(3)]
+            c["m"] = rng.choice([0, 1, 3, 8, 16, 40, 100])          # r^2 = (2m+1)/128: up to r ~ 1.25 cells
+        else:
+            c["lo8"] = [rng.randint(-20, 12) for _ in range(3)]
+            c["hi8"] = [c["lo8"][i] + rng.randint(1, 14) for i in range(3)]
+        try:
+            ok, d, got = scaled_oracle(c)
+        except Exception as e:
+            ok, d, got = False, "raised %s: %s" % (type(e).__name__, e), None
+        ctx.evaluations += 1
+        ctx.seen(("scaled", c["shape"], tuple(pbc), c["periodic"], ok, len(got or [])))
+        if not ok:
+            ctx.fail_input("scaled", c, d, classify)
     if sexprs:
         vals = fw.coq_eval("c07s", IMPORTS, sexprs)
         nbad = sum(1 for a, b in zip(vals, sgot) if a != b)
         first = next(("%s model=%s impl=%s" % (m, a, b) for a, b, m in zip(vals, sgot, smeta) if a != b), "")
         ctx.oblige("from_sphere(periodic=True) (atoms, cell_indices, order) == C03 model on position-centre [%d cases]" % len(sexprs), "correspondence", nbad == 0,
                    "%d disagree; first: %s" % (nbad, first))
+    if bexprs:
+        vals = fw.coq_eval("c07b", IMPORTS, bexprs)
+        nbad = sum(1 for a, b in zip(vals, bgot) if a != b)
+        first = next(("%s model=%s impl=%s" % (m, a, b) for a, b, m in zip(vals, bgot, bmeta) if a != b), "")
+        ctx.oblige("from_box(periodic=True) (atoms, cell_indices, order) == Coq box model [%d cases]" % len(bexprs), "correspondence", nbad == 0,
+                   "%d disagree; first: %s" % (nbad, first))
+        ctx.evaluations += len(bexprs)
     if ctx.tier == "thorough":
         ctx.coqchk()
 
 
 def replay(obj):
     k, c = obj["kind"], obj["case"]
-    if k not in ("setop", "string", "sphere", "box"):
+    if k not in ("setop", "string", "sphere", "box", "scaled"):
         print("replay: nothing executable in this file: %s" % obj.get("broken_obligations"))
         return 1
     ok, d = run_case(k, c)
